@@ -74,6 +74,9 @@ def pair_case(draw, tier="quick"):
     r1, r2 = np.random.default_rng(s1), np.random.default_rng(s2)
     v1 = r1.uniform(0.5, 2.0, size=len(w1)) if pos else r1.uniform(-2, 2, size=len(w1))
     v2 = r2.uniform(0.5, 2.0, size=len(w2)) if pos else r2.uniform(-2, 2, size=len(w2))
+    vs = draw(gen.scales())
+    if op != "power":
+        v1, v2 = v1 * vs, v2 * (1.0 if op in ("multiply", "divide") else vs)
     if draw(st.booleans()) and not pos:
         v1[: len(v1) // 3] = 0.0
     method = draw(st.sampled_from(["linear", "linear", "quadratic", "cubic"]))
